@@ -8,6 +8,7 @@
 mod c12;
 mod c14;
 mod c18;
+mod client_h;
 #[path = "../../common/ctx.rs"]
 mod ctx;
 mod harness;
@@ -37,6 +38,16 @@ fn child(args: &[String]) {
                     std::process::exit(2)
                 });
             harness::run_child(bound, max_secs, move || c12::body(&spec));
+        }
+        "C04" | "C05" | "C06" => {
+            let spec = client_h::catalogue(prop, thorough)
+                .into_iter()
+                .find(|s| s.name == name)
+                .unwrap_or_else(|| {
+                    eprintln!("unknown harness {name}");
+                    std::process::exit(2)
+                });
+            harness::run_child(bound, max_secs, move || client_h::body(&spec));
         }
         "C14" => {
             let spec = c14::catalogue(thorough)
@@ -69,7 +80,7 @@ fn child(args: &[String]) {
 fn run_catalogue(
     id: &'static str,
     tier: Tier,
-    names: Vec<String>,
+    names: Vec<(String, Option<usize>)>,
     bound: Option<usize>,
     deadlock_key: &str,
     samples: Vec<serde_json::Value>,
@@ -79,7 +90,7 @@ fn run_catalogue(
     let ctx = Ctx::new(id, tier);
     let jobs: Vec<Job> = names
         .iter()
-        .map(|n| Job { name: n.clone(), bound, max_secs: tier.pick(40, 600) })
+        .map(|(n, b)| Job { name: n.clone(), bound: b.or(bound), max_secs: tier.pick(40, 600) })
         .collect();
     let sum = harness::run_jobs(&ctx, tier.name(), jobs, deadlock_key);
     if sum.distinct_outcomes.len() < 2 && !ctx.has_violation() {
@@ -199,13 +210,28 @@ fn main() {
     };
     match prop.as_str() {
         "C12" => run_c12(tier),
+        "C04" | "C05" | "C06" => {
+            let id: &'static str = match prop.as_str() { "C04" => "C04", "C05" => "C05", _ => "C06" };
+            let specs = client_h::catalogue(id, tier == Tier::Thorough);
+            let samples = specs.iter().take(3).map(|s| json!({"harness": s.name, "callers": format!("{:?}", s.callers), "server_script": format!("{:?}", s.server)})).collect();
+            run_catalogue(
+                id,
+                tier,
+                specs.iter().map(|s| (s.name.clone(), s.bound)).collect(),
+                Some(tier.pick(2, 3)),
+                match id { "C04" => "C04:hang", "C05" => "C05:hang", _ => "C06:hang" },
+                samples,
+                "each harness = caller threads + the blocking client's reader thread + main as scripted server/clock over the real client.rs under loom (mock socket, loom channel with virtual-clock timeouts); a thread left blocked when all others finished is a hang",
+                &["sequentially consistent interleavings at lock/channel/socket-operation granularity within the preemption bound", "the mock socket models blocking reads/writes, shutdown and EOF; kernel buffering is modelled by an explicit pipe capacity"],
+            )
+        }
         "C14" => {
             let specs = c14::catalogue(tier == Tier::Thorough);
             let samples = specs.iter().take(3).map(|s| json!({"harness": s.name, "threads": format!("{:?}", s.threads)})).collect();
             run_catalogue(
                 "C14",
                 tier,
-                specs.iter().map(|s| s.name.clone()).collect(),
+                specs.iter().map(|s| (s.name.clone(), None)).collect(),
                 None,
                 "C14:deadlock",
                 samples,
@@ -219,7 +245,7 @@ fn main() {
             run_catalogue(
                 "C18",
                 tier,
-                specs.iter().map(|s| s.name.clone()).collect(),
+                specs.iter().map(|s| (s.name.clone(), None)).collect(),
                 None,
                 "C18:deadlock",
                 samples,
